@@ -177,6 +177,12 @@ class Check:
             self.tier = "quick"
         self.seed = int(seed if seed is not None else os.environ.get("VERIF_SEED", "0") or 0)
         self.rng = random.Random(f"{pid}-{self.seed}")
+        import glob
+        for old in glob.glob(os.path.join(VERIF, "replays", f"{pid}-{self.seed}-*.json")):
+            try:
+                os.remove(old)
+            except OSError:
+                pass
         self.t0 = time.time()
         self.violations = []  # dicts: signature, what, replay
         self.broken = []  # dicts: obligation, detail, case
